@@ -63,8 +63,10 @@ def excludesDist (i : Input) : List String :=
 /-- `saving_files = installed_dist | exists_dist | excludes_dist | restricted_dist` -/
 def saving (i : Input) : List String := installedDist i ++ existsDist i ++ excludesDist i ++ restrictedDist i
 
-/-- `target_files` before the saving files are taken out -/
-def targetFiles (i : Input) : List String := if i.opts.hasRestrict then i.selected else names i
+/-- `target_files` before the saving files are taken out: without a target restriction every file of the distdir; with
+one, the files its patterns select — and nothing at all when the restriction matches no package (`if target_dist:`) -/
+def targetFiles (i : Input) : List String :=
+  if i.opts.hasRestrict then (if i.repo.any (·.targeted) then i.selected else []) else names i
 
 /-- `namespace.file_filters.run` -/
 def passes (i : Input) (f : String) : Bool :=
